@@ -147,16 +147,30 @@ def check_valid(tc, rec):
     else:
         import pandas as pd
         frac = any(v is not None and float(v) != int(v) for v in case["x"])
+        far = bool(case.get("far_data"))  # instants that nanoseconds cannot hold: only the carriers that can
         for unit in ("s", "ms", "us", "ns"):
-            if unit == "s" and frac:
+            if (unit == "s" and frac) or (unit == "ns" and far):
                 continue  # whole-second resolution cannot carry the same instants
             variants.append((f"dt64{unit}", a.astype(f"datetime64[{unit}]"), {}))
-        variants.append(("dtindex", pd.DatetimeIndex(a.astype("datetime64[ns]")), {}))
-        variants.append(("series", pd.Series(a.astype("datetime64[ns]")), {}))
-        variants.append(("list_dt64+dtype", list(a.astype("datetime64[ns]")), {"dtype": "datetime64[ns]"}))
+        if not far:
+            variants.append(("dtindex", pd.DatetimeIndex(a.astype("datetime64[ns]")), {}))
+            variants.append(("series", pd.Series(a.astype("datetime64[ns]")), {}))
+            variants.append(("list_dt64+dtype", list(a.astype("datetime64[ns]")), {"dtype": "datetime64[ns]"}))
+        else:
+            variants.append(("series_us", pd.Series(a.astype("datetime64[us]")), {}))
         variants.append(("masked", np.ma.MaskedArray(np.where(np.isnat(a), np.datetime64(0, "s").astype(a.dtype), a),
                                                      mask=np.isnat(a)), {}))
-        if not miss_ and n and case["lo"] is not None and case["hi"] is not None and not case.get("far_bounds"):
+        if not miss_ and n and not far:
+            # a plain list of naive python datetimes, bounds as python datetimes (far-away ones included), no dtype
+            import datetime as dtm0
+
+            def naive(v):
+                return None if v is None else dtm0.datetime(1970, 1, 1) + dtm0.timedelta(milliseconds=int(round(float(v) * 1000)))
+            try:
+                variants.append(("list_datetimes (type guessed)", [naive(v) for v in case["x"]], {"_span": [naive(case["lo"]), naive(case["hi"])]}))
+            except OverflowError:
+                pass
+        if not miss_ and n and case["lo"] is not None and case["hi"] is not None and not case.get("far_bounds") and not far:
             # timezone-aware python datetimes (data in one zone, bounds in another), no dtype given
             import datetime as dtm
             from zoneinfo import ZoneInfo
